@@ -123,7 +123,7 @@ def case(cid, rng, name, kk, re, mix8):
 def gen(args):
     wid, cfgs, sd = args
     rng = np.random.default_rng([sd, wid, 707])
-    return [case("c%d" % k, rng, *cfg) for k, cfg in cfgs]
+    return [case("c%d" % k, rng, *cfg) for k, cfg in core.timed(cfgs)]
 
 
 KEYS = ("id", "family", "pcov", "mix", "k", "re", "A", "y", "steps", "final", "route", "raised", "tolu")
